@@ -233,7 +233,14 @@ def _parse_lambda(lam):
   # works in interactive shells, where getsource would fail. This is the
   # same procedure followed by inspect for non-modules:
   # https://github.com/python/cpython/blob/3.8/Lib/inspect.py#L772
-  lines = linecache.getlines(f, mod.__dict__)
+  # As for regular functions (see inspect_utils.getimmediatesource, which relies
+  # on inspect.findsource), make sure linecache does not hand out the lines of
+  # an earlier version of the file: the lambda would silently be replaced by
+  # whatever used to be at that location.
+  with inspect_utils._linecache_lock:  # pylint:disable=protected-access
+    inspect_utils._fix_linecache_record(lam)  # pylint:disable=protected-access
+    linecache.checkcache(f)
+    lines = linecache.getlines(f, mod.__dict__)
   source = ''.join(lines)
 
   # Narrow down to the last node starting before our definition node.
